@@ -349,6 +349,9 @@ func valuePatterns(typ string) []uint64 {
 func TestCheck(t *testing.T) {
 	r := vkit.Start("C08")
 	defer r.Finish(t)
+	if r.ReplayCold() {
+		return
+	}
 	if r.Replay != "" {
 		var c Case
 		if err := r.LoadReplay(&c); err != nil {
@@ -543,6 +546,15 @@ func TestCheck(t *testing.T) {
 					}
 					w.Eval(lit != "0")
 				}
+			}
+		})
+	})
+
+	r.Phase(fmt.Sprintf("D4: %d cold-start scenarios (which call comes first in a fresh process)", len(coldScenarios)), func() {
+		r.Serial(func(w *vkit.W) {
+			for _, sc := range coldScenarios {
+				r.RunCold(w, sc, false)
+				w.EvalRandom(vkit.Hash64("cold", sc), true)
 			}
 		})
 	})
